@@ -10,6 +10,22 @@ CHECKS = {
          "No execution of UBXReader.read() over any byte string of the stated alphabet and length bound, under any of the enumerated reader configurations, returns a raw item that is not an ordered, non-overlapping, preamble-led slice of the input or reports end-of-stream with unread data. Exhaustive within the bound, not a proof beyond it.",
          "io.BytesIO as the stream; pynmeagps.NMEA_HDR as the list of NMEA preambles; strings longer than the bound and bytes outside the 8-symbol alphabet are reached only through token sequences.",
          "DESIGN.md §5 C07"),
+ "C06": ("bounded exhaustive exploration of the real reader over all token sequences (frames of three protocols, accepted/rejected, noise) up to a depth x configurations; expected output known by construction",
+         "For every sequence of up to the stated number of frame/noise tokens and every enumerated configuration, the reader yields exactly the frames their protocol parser accepts, in order, with the parser's result, then ends with the stream consumed.",
+         "pynmeagps/pyrtcm parsers decide acceptance of NMEA/RTCM tokens; token alphabet is fixed (14 frames, 5 noise); depth bound.",
+         "DESIGN.md §5 C06"),
+ "C09": ("crash-point enumeration: every cut position of every byte string / token sequence up to a bound, executed on the real reader; prefix oracle against the uncut run",
+         "No cut of any enumerated stream yields an item sequence that is not a prefix of the uncut output, raises, leaves bytes unread, or (for clean sequences) loses a frame that ends before the cut.",
+         "BytesIO(S[:k]) models the cut stream; items compared by type/str/serialize.",
+         "DESIGN.md §5 C09"),
+ "C11": ("bounded exhaustive exploration over byte strings / token sequences x all 8 masks x parsing on/off; differential oracle against mask 7",
+         "For every enumerated stream and base configuration, each mask's output equals the unfiltered output restricted to the mask's protocols; parsing=False leaves framing unchanged on accepted-frame sequences and returns no parsed values.",
+         "reference classifier of the first two bytes decides an item's protocol.",
+         "DESIGN.md §5 C11"),
+ "C12": ("bounded exhaustive exploration over token sequences and byte strings x quitonerror(3) x handler present/absent; by-construction handler-event oracle plus differential oracle between policies",
+         "For every enumerated stream: IGNORE and LOG deliver identical items; under LOG the handler (or the logger, if absent) is called exactly once per rejected frame token, in order, with the parser's exception; under RAISE the items before the first error event are delivered and that same exception is raised.",
+         "exception identity compared by class name and message; log records captured at the root logger.",
+         "DESIGN.md §5 C12"),
 }
 NOT_YET = "check not built yet in this round (planned: see DESIGN.md §5)"
 
